@@ -90,6 +90,21 @@ def peer_strategy(dll=None, roles=("orig", "resp"), modes=("rts", "rts", "bam"),
     return build()
 
 
+def base_case(dll, role, mode, packets, i=0, peer=None, **over):
+    """A plain, fully specified case for enumerations (every free choice at its most ordinary value)."""
+    seg = 60 if dll == "j1939-22" else 7
+    p = {"dll": dll, "role": role, "mode": mode,
+         "pl": {"n": seg * (packets - 1) + 1 + i % (seg - 1), "cls": "arith", "a": i % 256, "b": 3, "tile": [1], "seg": seg},
+         "max_cmdt": 255, "max_cmdt_r": 255, "dp": 0, "prio": 6,
+         "lat": {"S": [0.0005], "P": [0.0005]}, "eps": [0.0], "disp": [0.0], "bam_dt": None, "rts_dt": None,
+         "sas": [0x30, 0x90], "tx_time": 0.0, "app_timer": None, "pf": 0xD1, "ps": None if mode == "rts" else 255,
+         "peer": {"grants": [255], "holds": [0], "hold_gap": 0.1, "rereq": [], "reply_lat": [0.001],
+                  "limit": 255, "dt_gap": 0.001, "bam_gap": 0.05, "session": (i % 8 if mode == "rts" else i % 4) if dll == "j1939-22" else 0}}
+    p.update(over)
+    p["peer"].update(peer or {})
+    return p
+
+
 class _NoPeer:
     messages = ()
     errors = ()
